@@ -99,3 +99,11 @@ META["C20"] = {
     "text": "Exploration with an exhaustive sub-space: every subset of the 7 judged TLS-bearing init positions x {struct-built, loaded from JSON} x {static, dynamic cluster files} x {admin dump before / after the first file dump}, plus 400 (12000) seeded histories of runtime updates (listener, cluster, hosts, router, extend, cluster-manager TLS); every case calls the real ConfigDump handler for all 8 endpoint kinds and searches each body for every marker; each case runs twice from Reset() and the forced file dump / inherit bytes must equal the reference run, keep every real key and never contain the placeholder; live objects must deep-equal a pristine rebuild. c20-race: 4 goroutines of admin dumps (one through a loopback HTTP server) against file dumps, race build with anchors, and dumps steered into transferConfig through the verif hook point.",
     "note": "Setter-level feeding mirrors MOSN's init (no real listeners; 'TLS keeps working' is judged at the config-data level). 24 raw-JSON holes that nothing in the tree decodes as a TLS context are generated and counted but not judged.",
 }
+
+META["C10"] = {
+    "engine": "vworker",
+    "design_ref": "DESIGN.md §3 C10, §2.4",
+    "technique": "conservation monitors over a running proxy: continuous sign sampling of every breaker resource and *_active gauge, zero / socket-count equality at quiescent points (two equal samples 200 ms apart), and event-triggered threshold trip tests (max_requests, max_retries) with scripted upstreams holding exchanges open",
+    "text": "Exploration: a real in-process MOSN whose clusters count all four breaker resources; 3 (12) rounds of 240 mixed requests per run (success, 5xx + retry policy, per-try / global timeouts, upstream close / RST / half response, unknown / empty / dead clusters, abandoned requests; 8 concurrent clients x HTTP/1, bolt, HTTP/2). A side goroutine samples all books every 2 ms (any negative value is a violation); after each round the request-type books (breaker requests / pending / retries, downstream and upstream request_active) must be 0 and upstream connection_active must equal the sockets the scripted upstreams hold; after the peers closed everything connection books must be 0. Threshold tests per protocol: with max_requests=3 exactly 3 requests are held in flight at the upstream (event-triggered, not timed): the resource must read 3, request 4 must be refused, and a new request must be admitted after release; with max_retries=1 a second request's retry must be refused while one retry is in flight and admitted afterwards.",
+    "note": "Every cluster has its own upstream servers because MOSN keys connection pools by host address (clusters sharing an address share pools and books by design). Deliberately unsynchronised statistics are read only at quiescence; the sampler judges sign only.",
+}
